@@ -1,0 +1,35 @@
+//go:build verif
+
+package eval
+
+import "sync/atomic"
+
+// Resource-site counters for the verification harness (build tag verif): how
+// many file descriptors the interpreter opened (os.Pipe counts 2,
+// os.OpenFile 1), how many times it called Close on a descriptor it owns, and
+// how many goroutines it started. See trace_c40_noverif.go for the inert stub.
+
+const (
+	verifResOpen = iota
+	verifResClose
+	verifResGo
+	verifResN
+)
+
+var verifResCounts [verifResN]atomic.Int64
+
+func verifRes(kind, n int) { verifResCounts[kind].Add(int64(n)) }
+
+// VerifResReset zeroes the counters.
+func VerifResReset() {
+	for i := range verifResCounts {
+		verifResCounts[i].Store(0)
+	}
+}
+
+// VerifResGet returns (descriptors opened, Close calls, goroutines started)
+// since the last reset.
+func VerifResGet() (opened, closeCalls, spawned int64) {
+	return verifResCounts[verifResOpen].Load(), verifResCounts[verifResClose].Load(),
+		verifResCounts[verifResGo].Load()
+}
